@@ -203,6 +203,21 @@ func c16Run(c c16Case, st *fw.Stats) []fw.Viol {
 				}
 			}
 		}
+		// the same resource mounted twice under different base paths: every name points at the route registered last
+		{
+			r2 := rux.New()
+			r2.Resource("/v1/", &GADGET{rec})
+			r2.Resource("/v2/", &GADGET{rec})
+			for n, want := range map[string]string{"gadget_index": "/v2/gadget", "gadget_create": "/v2/gadget/create", "gadget_show": "/v2/gadget/{id}"} {
+				if rt := r2.GetRoute(n); rt == nil || rt.Path() != want {
+					gp := "<nil>"
+					if rt != nil {
+						gp = rt.Path()
+					}
+					add("resource:names", fmt.Sprintf("Resource(\"/v1/\", ctl) then Resource(\"/v2/\", ctl): the name %q points at %s, the route registered last under that name is %s", n, gp, want))
+				}
+			}
+		}
 		r := rux.New()
 		r.Resource("/", &C16Bad{rec})
 		got := routeSet(r)
@@ -632,6 +647,11 @@ func c16CheckRouter(r *rux.Router, rec *c16Rec, c c16Case, desc string, impl []s
 	// (a variable in the base path is given the value "acme")
 	cp := strings.ReplaceAll(strings.ReplaceAll(resPath, "{t:[a-z]{4}}", "acme"), "{t}", "acme")
 	probes := []string{cp, cp + "/create", cp + "/7", cp + "/7/edit", cp + "/create/edit", cp + "/7/x", "/", cp + "x"}
+	if c.Cache > 0 {
+		// ids long enough for the cache keys to pass 255 bytes: show and edit of one id stay different requests
+		long := strings.Repeat("k", 250)
+		probes = append(probes, cp+"/"+long, cp+"/"+long+"/edit", cp+"/"+long+"x")
+	}
 	type mp struct{ m, p string }
 	var seq []mp
 	for _, m := range refmodel.Methods {
